@@ -90,6 +90,11 @@ def check(run, prog, tier):
     rule_E3(run, prog, E)
     rule_E4(run, prog)
     rule_E5(run, prog)
+    run.rule("C15-E6", "propagators, hierarchy and tensors keep no result of an earlier call that a later call could be answered with", minimum=8)
+    from . import memorule
+    memorule.check(run, prog, "C15-E6", ['quantarhei.qm.propagators.rdmpropagator.ReducedDensityMatrixPropagator', 'quantarhei.qm.propagators.svpropagator.StateVectorPropagator', 'quantarhei.qm.propagators.poppropagator.PopulationPropagator', 'quantarhei.qm.liouvillespace.heom.KTHierarchy', 'quantarhei.qm.liouvillespace.heom.KTHierarchyPropagator', 'quantarhei.qm.liouvillespace.evolutionsuperoperator.EvolutionSuperOperator', 'quantarhei.qm.liouvillespace.redfieldtensor.RedfieldRelaxationTensor', 'quantarhei.qm.liouvillespace.relaxationtensor.RelaxationTensor', 'quantarhei.builders.opensystem.OpenSystem'],
+                   "the result then depends on the history of the object, not only on the inputs of the call")
+
 
 
 class _Proxy:
@@ -250,6 +255,11 @@ def _scan(prog, E, f, roots):
 def rule_E3(run, prog, E):
     rid = "C15-E3"
     nfun = 0
+    # arrays handed to the population propagator (initial populations, rate matrix): no write into them, also not
+    # through numpy.asarray / slices / .T, which return the same storage (rule of C17-D)
+    from . import c17
+    from ..report import RuleProxy
+    c17.rule_D(RuleProxy(run, rid, keep=lambda c, k: k in ("inputs-intact", "no-inplace")), prog)
 
     def judge(f, found):
         nonlocal nfun
